@@ -26,6 +26,22 @@ def scan_prop(pid, setn, extra_lib):
 
 
 PROPS = {
+    'C19': {
+        'lib': LIB + ['Check/Scan', 'Check/C19'],
+        'syn': ['Props/C19_set1', 'Props/C19_set2'], 'needs_syn': ['Syn/Set1', 'Syn/Set2', 'Check/C19'],
+        'ext': ['Props/C19_set1_ext', 'Props/C19_set2_ext'], 'needs_ext': ['ExtI/Scan', 'Check/C19'],
+        'corr': ['Corr/Set1', 'Corr/Set2'], 'needs_corr': ['Syn/Set1', 'Syn/Set2', 'ExtI/Scan'],
+        'cex_ext': ['Cex/C19_set1_ext', 'Cex/C19_set2_ext'], 'cex_syn': ['Cex/C19_set1_syn', 'Cex/C19_set2_syn'],
+        'replay_kind': 'two_seq',
+    },
+    'C13': {
+        'lib': LIB + ['Spec/ScanRef', 'Spec/ScanAuto', 'Check/Scan', 'Check/C19', 'Check/C13'],
+        'syn': ['Props/C13'], 'needs_syn': ['Syn/Set1', 'Syn/Set2', 'Check/C13'],
+        'ext': ['Props/C13_ext'], 'needs_ext': ['ExtI/Scan', 'Check/C13'],
+        'corr': ['Corr/Set1', 'Corr/Set2'], 'needs_corr': ['Syn/Set1', 'Syn/Set2', 'ExtI/Scan'],
+        'cex_ext': 'Cex/C13_ext', 'cex_syn': 'Cex/C13_syn',
+        'replay_kind': 'c13',
+    },
     'C07': {
         'lib': LIB + ['Check/Scan', 'Check/C07'],
         'syn': ['Props/C07_set1', 'Props/C07_set2'], 'needs_syn': ['Syn/Set1', 'Syn/Set2', 'Check/C07'],
